@@ -188,13 +188,29 @@ pub struct Alphabet {
     pub foreign: Vec<(Vec<u8>, Model)>,
     pub inits: Vec<Init>,
     pub thorough: bool,
+    /// 0 = unrelated contents AA/BB(/A); 1 = related contents A, A+NUL(, NUL): proper prefix / suffix, concatenation,
+    /// trailing zero byte; 2 = the three related contents over four ids from two fresh objects, depth-bounded
+    pub variant: u8,
+    /// histories longer than this are not expanded (None = to fix-point)
+    pub max_depth: Option<usize>,
 }
 
 impl Alphabet {
     pub fn new(thorough: bool) -> Self {
-        let ids: Vec<u64> = if thorough { vec![0, 1, 2, 5] } else { vec![0, 1, 2] };
-        let contents: Vec<Vec<u8>> = if thorough { vec![b"AA".to_vec(), b"BB".to_vec(), b"A".to_vec()] } else { vec![b"AA".to_vec(), b"BB".to_vec()] };
-        let foreign = foreign_archives();
+        Self::variant(thorough, 0)
+    }
+    pub fn from_case(case: &Value) -> Self {
+        Self::variant(case["thorough"].as_bool().unwrap_or(false), case["variant"].as_u64().unwrap_or(0) as u8)
+    }
+    pub fn variant(thorough: bool, variant: u8) -> Self {
+        let ids: Vec<u64> = if thorough || variant == 2 { vec![0, 1, 2, 5] } else { vec![0, 1, 2] };
+        let (k0, k1, k2): (&[u8], &[u8], &[u8]) = if variant == 0 { (b"AA", b"BB", b"A") } else { (b"A", b"A\0", b"\0") };
+        let contents: Vec<Vec<u8>> = if thorough || variant == 2 { vec![k0.to_vec(), k1.to_vec(), k2.to_vec()] } else { vec![k0.to_vec(), k1.to_vec()] };
+        if variant == 2 {
+            let inits = vec![Init::Fresh(Api::Sync, Compression::None), Init::Fresh(Api::Async, Compression::GZip)];
+            return Self { ids, contents, outsider: 3, foreign: Vec::new(), inits, thorough, variant, max_depth: Some(5) };
+        }
+        let foreign = foreign_archives(k0, k1);
         let mut inits = vec![
             Init::Fresh(Api::Sync, Compression::None),
             Init::Fresh(Api::Async, Compression::None),
@@ -216,7 +232,7 @@ impl Alphabet {
         inits.push(Init::ForeignPartial(0, Api::Async, 1, 2));
         inits.push(Init::ForeignPartial(1, Api::Sync, 1, 2));
         inits.push(Init::ForeignPartial(1, Api::Async, 0, 0));
-        Self { ids, contents, outsider: 3, foreign, inits, thorough }
+        Self { ids, contents, outsider: 3, foreign, inits, thorough, variant, max_depth: None }
     }
     pub fn ops(&self) -> Vec<Op> {
         let mut v = Vec::new();
@@ -239,30 +255,36 @@ impl Alphabet {
             Init::ForeignPartial(k, a, lo, hi) => json!({"init":"foreign-partial","index":k,"api":a.name(),"range":[lo, hi]}),
         }
     }
+    pub fn contents_desc(&self) -> Vec<String> {
+        self.contents.iter().map(|c| crate::report::hex(c)).collect()
+    }
 }
 
-/// three foreign archives over the id alphabet {0,1,2} and contents {AA,BB}: a run, shared and
-/// descending offsets behind a leaf directory, overlapping contents
-fn foreign_archives() -> Vec<(Vec<u8>, Model)> {
+/// three foreign archives over the id alphabet {0,1,2} and the first two contents k0, k1 of the alphabet: a run,
+/// shared and descending offsets behind a leaf directory, a content stored twice
+fn foreign_archives(k0: &[u8], k1: &[u8]) -> Vec<(Vec<u8>, Model)> {
     let mut out = Vec::new();
     let mk = |root: Vec<Node>, data: &[u8], comp: u8, lay: Layout| {
         let f = encode_foreign(&root, data, Some(b"{}"), comp, &lay, SHeader { tile_type: 2, tile_compression: 1, ..SHeader::default() });
         let model: Model = f.expected.iter().map(|(id, (o, l))| (*id, f.bytes[*o as usize..*o as usize + *l as usize].to_vec())).collect();
         (f.bytes, model)
     };
-    // F0: one run entry covering ids 0..=2 with content AA
-    out.push(mk(vec![Node::Tile(SEntry::new(0, 0, 2, 3))], b"AA", 1, Layout::default()));
-    // F1: root -> leaf; ids 0 and 2 share offset (BB), id 1 is AA stored *before* BB (descending offsets)
+    let (l0, l1) = (k0.len() as u32, k1.len() as u32);
+    // F0: one run entry covering ids 0..=2 with content k0
+    out.push(mk(vec![Node::Tile(SEntry::new(0, 0, l0, 3))], k0, 1, Layout::default()));
+    // F1: root -> leaf; ids 0 and 2 share an offset (k1), id 1 is k0 stored *before* k1 (descending offsets)
+    let d1: Vec<u8> = [k0, k1].concat();
     out.push(mk(
-        vec![Node::Leaf(0, vec![Node::Tile(SEntry::new(0, 2, 2, 1)), Node::Tile(SEntry::new(1, 0, 2, 1)), Node::Tile(SEntry::new(2, 2, 2, 1))])],
-        b"AABB",
+        vec![Node::Leaf(0, vec![Node::Tile(SEntry::new(0, u64::from(l0), l1, 1)), Node::Tile(SEntry::new(1, 0, l0, 1)), Node::Tile(SEntry::new(2, u64::from(l0), l1, 1))])],
+        &d1,
         2,
         Layout { gap: 3, ..Layout::default() },
     ));
-    // F2: overlapping contents in "ABBA": id 0 -> "AB"?? keep to alphabet: data "AABB": id 1 -> AA, id 2 -> BB, stored twice (BB at 2 and 4)
+    // F2: id 1 -> k0, id 2 -> k1 taken from its second copy (k1 is stored twice)
+    let d2: Vec<u8> = [k0, k1, k1].concat();
     out.push(mk(
-        vec![Node::Tile(SEntry::new(1, 0, 2, 1)), Node::Tile(SEntry::new(2, 4, 2, 1))],
-        b"AABBBB",
+        vec![Node::Tile(SEntry::new(1, 0, l0, 1)), Node::Tile(SEntry::new(2, u64::from(l0 + l1), l1, 1))],
+        &d2,
         1,
         Layout::default(),
     ));
@@ -420,7 +442,7 @@ pub fn explore_ordered(
     let mut frontier: Vec<(usize, Vec<Op>)> = Vec::new();
     let mut stats = Stats { states: 0, transitions: 0, max_depth: 0, merged: 0, distinct_observations: 0, state_set_digest: 0 };
     let mut samples = Vec::new();
-    let case_of = |init: usize, hist: &[Op]| json!({"kind":"history","thorough":alpha.thorough,"init":alpha.init_json(init),"init_index":init,"ops":hist.iter().map(|o| o.to_json(&alpha.contents)).collect::<Vec<_>>()});
+    let case_of = |init: usize, hist: &[Op]| json!({"kind":"history","thorough":alpha.thorough,"variant":alpha.variant,"init":alpha.init_json(init),"init_index":init,"ops":hist.iter().map(|o| o.to_json(&alpha.contents)).collect::<Vec<_>>()});
 
     // initial states
     for i in 0..alpha.inits.len() {
@@ -500,6 +522,9 @@ pub fn explore_ordered(
             }
         }
         stats.max_depth = depth;
+        if alpha.max_depth.is_some_and(|d| depth >= d) {
+            break;
+        }
         if seen.len() > max_states {
             complete = false;
             break;
